@@ -115,20 +115,23 @@ P("C11", [f"{UT}:partition", f"{BAL}:_init", f"{BAL}:_zero_diags", f"{BAL}:_time
           "cooler.parallel:MultiplexDataPipe.pipe", "cooler.parallel:MultiplexDataPipe.run", "cooler.parallel:MultiplexDataPipe.reduce"], "bounded/C11.py", "Proof core: balance_cooler's chunk spans tile [0, nnz) for EVERY chunk size (first span at 0, consecutive spans of exactly chunksize pixels, ceil(nnz/chunksize) of them, the last reaches nnz, none starts at or beyond nnz; a single span for chunksize=None) and every marginal pass and the balancer receive the same spans, the caller's map and lock (coordinator contract, shared with C10); util.partition tiles [start, stop) exactly for every step (the per-chromosome spans of cis-only balancing); the per-pixel filters never write the shared chunk. The split-apply-combine engine is under coordinator contracts: split's keys are the caller's spans (default: partition(0, nnz, chunksize)); pipe() returns a NEW pipe with the filters appended and never shares or changes the receiver's filter list; run() hands the pipe's own filters, initialiser, getter and exactly its keys to the map once; apply_pipeline fetches the key once and threads ONE pristine chunk and each predecessor's output through the filters in order; chunkgetter reads exactly rows [lo, hi) of the pixel table once (lock held around the read when requested, nothing remembered between calls); reduce is functools.reduce of the run's results with the caller's operator from init. Real maps, pools and completion orders are explored by the bounded tier.", level="other",
   unverified=["the map functor itself (assumed: applies the function to every key exactly once)", "functools.reduce (assumed left fold)", "process pools / completion order (concurrency is outside contracts)"])
 
-P("C12", [f"{API}:matrix", f"{API}:Cooler.matrix", f"{RQ}:CSRReader.__call__"], "bounded/C12.py",
-  "Proof: api.matrix (sparse and dense outputs) multiplies every raw value by the weight of its own row bin and its own column bin from the selected column (reciprocals when divisive; rows from [i0,i1), columns from [j0,j1) also when the ranges differ, incl. the aliasing shortcut for equal ranges), refuses a missing column with ValueError, and builds the fill-lower engine iff asked with the window as bounding box (engine outputs by assumed model; their content is C03's exactly-once lemma and the CSRReader.__call__ contract, included). Cooler.matrix is proved to pass every option through, with the divisive default exactly for KR/VC/VC_SQRT when the caller passed None and fill_lower = symmetric-upper. The balanced pixel-table branch (annotate) and dump -b are covered by the bounded tier; NaN propagation through * and / is assumed (IEEE), not modelled.", level="other",
-  unverified=["api.matrix as_pixels+balance branch (annotate)", "dump --balanced annotator"])
+P("C12", [f"{API}:matrix", f"{API}:Cooler.matrix", f"{API}:annotate", f"{RQ}:CSRReader.__call__"], "bounded/C12.py",
+  "Proof: api.matrix (sparse and dense outputs) multiplies every raw value by the weight of its own row bin and its own column bin from the selected column (reciprocals when divisive; rows from [i0,i1), columns from [j0,j1) also when the ranges differ, incl. the aliasing shortcut for equal ranges), refuses a missing column with ValueError, and builds the fill-lower engine iff asked with the window as bounding box (engine outputs by assumed model; their content is C03's exactly-once lemma and the CSRReader.__call__ contract, included). Cooler.matrix is proved to pass every option through, with the divisive default exactly for KR/VC/VC_SQRT when the caller passed None and fill_lower = symmetric-upper. The balanced pixel-table branch is under contract as well: the weights are looked up for the engine's own records in THIS collection's bin table, column = the selected name, and the added 'balanced' column is value x weight[bin1] x weight[bin2] (reciprocals when divisive) with raw values and ids untouched; join annotates the same frame afterwards. The lookup itself is api.annotate, verified as a function over pandas frames for every pixel order, every contiguous part of the bin table and the selector form: each pixel gets the columns of its own two bins. dump -b is covered by the bounded tier; NaN propagation through * and / is assumed (IEEE), not modelled.", level="other",
+  unverified=["dump --balanced annotator (cli)", "Cooler(h5).bins()[[name]] inside api.matrix (assumed: selector over that column of this group's bin table)"])
 
 P("C13", [f"{ING}:_validate_pixels", f"{CR}:create", f"{CR}:write_pixels"], "bounded/C13.py", "Proof core: the default validator accepts a chunk iff it has no out-of-range id, no lower-triangle pixel (symmetric mode) and no in-chunk duplicate, raises BadInputError exactly otherwise, and returns the records unchanged (pandas duplicated/sort_values by assumed contract). create() itself is verified as a coordinator over a ghost operation log (every helper and h5py call replaced by a recording stub; 41 configurations of mode/append/root-or-nested target/check flags/input forms/single-cell append, symbolic paths, counts and symmetric flag): the validator is chained onto the caller's pixel stream iff any check is requested, with the bin count and exactly the requested checks (triangularity only in symmetric mode); a refused call opens no file; every write lies inside the target group of the target file; the info record is written once and last, so a stream that fails has left no info record. write_pixels (the append loop every producer goes through) is verified with ghost dataset contents for EVERY number of chunks and chunk lengths: each pixel column ends up as the concatenation of that column over the chunks in order, its length is the returned nnz (pre-allocated rows dropped when nothing arrived), the returned total is the sum of the count column (integer and float configurations), only the target group of the target file is touched, always opened r+. What an interrupted write leaves on disk is covered by the bounded tier (fault injection at every chunk index).", level="other",
   unverified=["what a mid-stream exception leaves on disk (write_pixels is proved for complete streams only)", "is_cooler on the partial file (bounded)"])
 
 P("C14", [f"{SEL}:_IndexingMixin._process_slice", f"{SEL}:RangeSelector1D.__getitem__", f"{SEL}:RangeSelector1D.fetch", f"{TOP}:get",
-          f"{API}:Cooler.chroms", f"{API}:Cooler.bins", f"{API}:Cooler.pixels", f"{API}:chroms", f"{API}:bins", f"{API}:pixels"], "bounded/C14.py",
+          f"{API}:Cooler.chroms", f"{API}:Cooler.bins", f"{API}:Cooler.pixels", f"{API}:chroms", f"{API}:bins", f"{API}:pixels", f"{API}:annotate"], "bounded/C14.py",
   "Proof core: slice/scalar normalisation of every table selector for all integer bounds, and the table read (get: rows lo..hi-1 of every requested plain column, labelled lo.., independent of the column selection, Series for a single name). The glue between them is under coordinator contracts: "
   "Cooler.chroms()/bins()/pixels() build selectors over nchroms/nbins/nnz rows whose slicer performs ONE read of the right table of the collection's own group with the "
   "caller's fields, bounds, join flag and reader options; api.chroms/bins/pixels read exactly rows [lo, hi) of the caller's fields (default: standard columns first, then every other "
   "stored column once), api.bins converts an integer chromosome column to the names stored in this collection's chroms/name (codes = the column read) unless convert_enum=False, "
-  "api.pixels(join=True) annotates the rows read with the whole bin table's coordinates.", level="other",
+  "api.pixels(join=True) annotates the rows read with the whole bin table's coordinates. api.annotate itself is verified as a function over pandas frames (assumed pandas contracts: "
+  "label slice of a consecutive integer index, positional take with wrap-around of negative positions, rename, drop, concat of equally long frames): for EVERY pixel order, pixel index, "
+  "column set (row id only, column id only, both, extra columns), replace flag, and for the bin table given whole, as any contiguous part containing the needed bins, or as a selector, "
+  "each pixel gets the columns of its own two bins in front, the pixel columns, order and index are kept.", level="other",
   unverified=["_tableops.get bytes decoding (astype(U))", "pandas Index.append/drop_duplicates, Categorical.from_codes (assumed by stubs)"])
 
 P("C15", [f"{UT}:parse_cooler_uri", "cooler.fileops:_copy", "cooler.fileops:_is_cooler", "cooler.fileops:is_cooler", f"{CR}:create"], "bounded/C15.py",
